@@ -299,7 +299,10 @@ impl World {
         for ki in batch {
             self.next_uid += 1;
             let uid = self.next_uid;
-            let rid = ReplicaId::new(me);
+            // one update in six was first written on another replica and is passed on by this node (relayed or replayed
+            // state): it names that replica as its source; the sender is still this node, and every owner but this node is due it
+            let origin = if uid % 6 == 5 && self.pool.len() > 1 { let o = self.pool[(uid as usize / 6) % self.pool.len()]; if o != me { rep.probe("routed_update_first_written_elsewhere"); } o } else { me };
+            let rid = ReplicaId::new(origin);
             let v = ReplicatedValue::with_value(SDS::from_str(&format!("u{}", uid)), LamportClock { time: uid, replica_id: rid });
             deltas.push(ReplicationDelta::new(self.keys[*ki].clone(), v, rid));
             uids.push(uid);
